@@ -10,6 +10,7 @@ import (
 	"fmt"
 	"math/rand"
 	"os"
+	"runtime"
 	"strconv"
 	"strings"
 )
@@ -74,6 +75,13 @@ func main() {
 				continue
 			}
 			if f[0] == "reset" {
+				if b := bkOf(st); b != nil {
+					for _, c := range b.conns {
+						c.c.Close()
+					}
+					b.s.Close()
+				}
+				runtime.GOMAXPROCS(runtime.NumCPU())
 				st = newState()
 				fmt.Fprintf(w, "%s\t-\n", line)
 				continue
